@@ -12,10 +12,14 @@ Sub-checks
     labels       Series / DataFrames whose index / column labels are python objects (strings, None, NaN, ints, ints beyond 2**53) under the pair, copy / near-miss and session laws;
                  the near miss is mostly ONE label replaced by its near neighbour (None <-> NaN, the int float64 cannot tell from it, a different leaf)
     pool_cube    every pair and triple of a fixed pool, exhaustive
+Classes 35 and 38 of the brief live inside pairs / copy_near / session / pool_cube: instances of collections.OrderedDict and of user subclasses of dict / list / tuple at any depth, and ints beyond the range of a float
+(10**400 ...) as scalars, members and object cells, next to floats / NaN / inf / numpy floats, with their near misses (labels int_beyond_float_range, huge_int_*, near_huge_int, container_subclass*, near_subclass_vs_base_same_members)
 """
+import collections
 import datetime
 import math
 import os
+import zlib
 
 import numpy as np
 import pandas as pd
@@ -46,18 +50,30 @@ ASSUMPTIONS = [
     'int64 / float64 index of equal labels (arrays of different dtype but equal cells, see above)',
     'session: an operand is changed in place only BETWEEN calls and every call is judged on the content it sees; nothing is demanded about eq leaving its operands untouched beyond that '
     '(later calls on the same objects are judged by the content the harness gave them)',
+    'ints beyond the range of a float (10**400, 10**400 + 1, -(10**400), 2**1024; about 3-5% of the cases of pairs / copy_near, 1.6% of session, two pool entries) are python ints: scalars, members of lists / tuples / dicts, cells of '
+    'object arrays and object Series - no typed array or int64 Series can hold them and no other raw type spells them (no value-equal twin). numpy itself refuses np.float64(0.0) == 10**400 (OverflowError); '
+    'the statement demands a boolean and no exception over scalars AND numpy scalars, so such pairs are inside the universe and are generated (on the unchanged tree eq catches the error and says False: no defect). '
+    'Demanded unequal: such an int against its neighbour int, +-inf, 1e308 / the largest float, numpy.float64 of those, another such int, its negative, the same int inside a list / tuple / array '
+    '(python compares int and float exactly, and eq agrees with == on plain values). They take no part in the transitivity triples (the pool apart)',
+    'subclasses of the container types: collections.OrderedDict and an instance of a user subclass of dict against the plain dict with the same items must be unequal ("dict vs a dict subclass", named in the statement). '
+    'An instance of a user subclass of list / tuple against the list / tuple with the same members is demanded unequal too: the statement says "False whenever container types differ" and its own example of a dict subclass '
+    'shows that a subclass counts as a different container type (the title says type-strict); such instances also obey the copy, near-miss, symmetry and session laws. Two OrderedDicts that differ only in key order: nothing '
+    'is demanded (their own == is order-sensitive, eq sorts the keys) - not generated. The user classes override nothing but __repr__',
+    'which values are subclass instances / give way to a value holding an int beyond the range of a float is read off the content of the drawn value (_gate, a crc32), not drawn: a draw of its own gave every simple value '
+    'many choice sequences and cost 15% of the distinct cases. Consequence: a given list content is always generated as list or always as the subclass instance; the other spelling is reached through the ctype_subclass near miss',
 ]
 
 # ----------------------------------------------------------------------------- builder
 
 
 def build(v, env):
+    if _is_huge(v):
+        return v + 1 - 1            # a fresh int object for every build: the copy of an int beyond the range of a float is equal to it, not identical
     if isinstance(v, list) and v:
         tag = v[0]
-        if tag in ('list', 'tuple'):
-            res = [build(x, env) for x in v[1]]
-            return res if tag == 'list' else tuple(res)
-        if tag in ('dict', 'Dict', 'dictattr'):
+        if tag in LISTS:
+            return _mklist(tag, [build(x, env) for x in v[1]])
+        if tag in DICTS:
             return _mkdict(tag, {k: build(x, env) for k, x in v[1]})
         if tag == 'arr':
             dtype, shape, flat = v[1], v[2], v[3]
@@ -90,9 +106,39 @@ def _zone(minutes):
     return datetime.timezone(datetime.timedelta(minutes=minutes))
 
 
+# containers and their subclasses (class 35): 'ulist' / 'utuple' / 'udict' are instances of user classes deriving from list / tuple / dict, 'odict' is a collections.OrderedDict
+LISTS = ('list', 'tuple', 'ulist', 'utuple')
+DICTS = ('dict', 'Dict', 'dictattr', 'odict', 'udict')
+SUBCLASSES = ('ulist', 'utuple', 'odict', 'udict')
+BASE = {'ulist': 'list', 'utuple': 'tuple', 'odict': 'dict', 'udict': 'dict'}
+
+
+class MyList(list):
+    def __repr__(self):
+        return 'MyList(%s)' % list.__repr__(self)
+
+
+class MyTuple(tuple):
+    def __repr__(self):
+        return 'MyTuple(%s)' % tuple.__repr__(self)
+
+
+class MyDict(dict):
+    def __repr__(self):
+        return 'MyDict(%s)' % dict.__repr__(self)
+
+
+def _mklist(tag, members):
+    return members if tag == 'list' else tuple(members) if tag == 'tuple' else MyList(members) if tag == 'ulist' else MyTuple(members)
+
+
 def _mkdict(tag, d):
     if tag == 'dict':
         return d
+    if tag == 'odict':
+        return collections.OrderedDict(d)
+    if tag == 'udict':
+        return MyDict(d)
     import pyg_base
     return getattr(pyg_base, tag)(d)
 
@@ -122,6 +168,16 @@ def _index(spec, env=None):
 INCLUDE_NAN_LABELS = os.environ.get('PV_C14_EXCLUDE_FIXED', '') != '1'      # NaN / NaT among the index labels: finding F32 (fixed), see ASSUMPTIONS
 
 BIG = [2 ** 53, 2 ** 53 + 1, 2 ** 53 + 2, -(2 ** 53) - 1, 2 ** 62 + 1]             # ints that float64 cannot tell from a neighbour
+HUGE = [10 ** 400, 10 ** 400 + 1, -(10 ** 400), 2 ** 1024]                          # ints beyond the range of a float (class 38): float(x), math.isnan(x), np.float64(0.) == x raise OverflowError
+_FLOAT_OVERFLOW = 2 ** 1024 - 2 ** 970                                              # the first int whose conversion to float overflows
+
+
+
+def _gate(v, mod):
+    """a fixed number in range(mod) read off the CONTENT of spec v. The classes added late (container subclasses, ints beyond the range of a float) are switched on by it instead of by a draw of their own:
+    an extra draw gives every simple value many choice sequences, Hypothesis then repeats the simple values and the number of distinct cases drops (measured: -15%)"""
+    return zlib.crc32(repr(v).encode()) % mod
+
 
 _nan = st.integers(0, 1).map(lambda k: ['nan', k])
 _inst = st.tuples(st.sampled_from(['dt', 'ts', 'dt64s', 'dt64us']), st.integers(D0, D0 + 2), st.sampled_from([0, 3600])).map(
@@ -217,7 +273,10 @@ def _pandas(draw, wide=False):
         if kind == 'int64':
             vals = draw(st.lists(st.one_of(st.integers(0, 2), st.sampled_from(BIG)) if wide and draw(st.integers(0, 3)) == 0 else st.integers(0, 2), min_size=n, max_size=n))
         elif kind == 'object':
-            vals = draw(st.lists(st.one_of(st.sampled_from(['a', 'b']), st.none(), st.integers(0, 2)), min_size=n, max_size=n))
+            ocell = st.one_of(st.sampled_from(['a', 'b']), st.none(), st.integers(0, 2))
+            vals = draw(st.lists(ocell, min_size=n, max_size=n))
+            if wide and n and _gate(vals, 4) == 0:         # class 38: ints beyond the range of a float among the cells of an object Series, next to floats, NaN, inf (one object Series in four)
+                vals = draw(st.lists(st.one_of(st.sampled_from(HUGE), st.sampled_from(HUGE), st.sampled_from([1.5, 1e308, ['inf', 1]]), _nan, ocell), min_size=n, max_size=n))
         else:
             vals = draw(st.lists(cell, min_size=n, max_size=n))
         return ['series', idx, vals, kind]
@@ -233,6 +292,16 @@ def _pandas(draw, wide=False):
 def _containers(inner, wide=False):
     keys = st.sampled_from(['a', 'b', 'c'])
     items = st.lists(st.tuples(keys, inner).map(list), max_size=3, unique_by=lambda kv: kv[0])
+    if wide:
+        # class 35: one list / tuple in 12 is an instance of a user subclass of list / tuple, one exact dict in 6 a collections.OrderedDict or an instance of a user subclass of dict
+        # (at every depth, as _containers is used at every level); Dict / dictattr / arrays keep their share
+        # (which ones: decided by the members, see _gate)
+        return st.one_of(
+            st.lists(inner, max_size=3).map(lambda v: ['ulist' if _gate(v, 12) == 5 else 'list', v]),
+            st.lists(inner, max_size=3).map(lambda v: ['utuple' if _gate(v, 12) == 6 else 'tuple', v]),
+            items.map(lambda v: ['odict' if _gate(v, 12) == 5 else 'udict' if _gate(v, 12) == 6 else 'dict', v]),
+            items.map(lambda v: ['Dict', v]), items.map(lambda v: ['dictattr', v]),
+            _arr(inner, wide))
     return st.one_of(
         st.lists(inner, max_size=3).map(lambda v: ['list', v]),
         st.lists(inner, max_size=3).map(lambda v: ['tuple', v]),
@@ -252,11 +321,50 @@ _value = st.one_of(_leafy, _containers(_leafy), _containers(_l1), _containers(st
 
 _leafy_w = st.one_of(_scalar_wide, _arr(None, True), _pandas(True), _pandas(True).map(list))      # pandas twice (.map: identical branches are merged): the wide scalars must not thin it out
 _l1_w = st.one_of(_leafy_w, _containers(_leafy_w, True))
-_value_wide = st.one_of(_leafy_w, _containers(_leafy_w, True), _containers(_l1_w, True), _containers(st.one_of(_l1_w, _containers(_l1_w, True)), True), _numbers_only)
+_value_wide_small = st.one_of(_leafy_w, _containers(_leafy_w, True), _containers(_l1_w, True), _containers(st.one_of(_l1_w, _containers(_l1_w, True)), True), _numbers_only)
+
+# class 38: ints beyond the range of a float (10**400, 10**400 + 1, -(10**400), 2**1024) as scalars, as members of lists / tuples / dicts (and their subclasses), as cells of object arrays and of
+# object Series, bare or one level down, next to floats, 1e308, NaN, +-inf, numpy float scalars (numpy refuses np.float64(0.0) == 10**400 with OverflowError), None and strings.
+# No typed array / int64 Series can hold them and no other raw type spells them (no value-equal twin)
+_huge = st.sampled_from(HUGE)
+_huge_company = st.one_of(st.sampled_from([1.5, 0, 1e308, -1e308, 2 ** 53 + 1, 0.0]), st.sampled_from([['inf', 1], ['inf', -1]]), _nan,
+                          st.sampled_from([['np', 'float64', 1.5], ['np', 'float64', ['inf', 1]], ['np', 'float64', ['nan', 0]], ['np', 'float32', 1.0], ['np', 'int64', 1]]),
+                          st.sampled_from([None, 'a', '']))
+
+
+@st.composite
+def _huge_value(draw):
+    cells = draw(st.lists(st.one_of(_huge, _huge_company, _huge_company), max_size=3))
+    k = draw(st.integers(0, len(cells)))
+    cells = cells[:k] + [draw(_huge)] + cells[k:]                  # at least one huge int, at any place
+    n = len(cells)
+    kind = draw(st.sampled_from(['scalar', 'scalar', 'list', 'tuple', 'dict', 'arr', 'arr', 'series', 'series', 'ulist', 'odict']))
+    if kind == 'scalar':
+        return cells[k]
+    if kind in LISTS:
+        v = [kind, cells]
+    elif kind in DICTS:
+        v = [draw(st.sampled_from(['dict', 'dict', 'Dict', 'dictattr'])) if kind == 'dict' else kind, [['k%i' % i, c] for i, c in enumerate(cells)]]
+    elif kind == 'arr':
+        v = ['arr', 'object', draw(st.sampled_from([[n], [n], [n, 1], [1, n]] + ([[2, 2]] if n == 4 else []))), cells]
+    else:
+        idx = ['range', n] if draw(st.booleans()) else ['dates', [D0 + i for i in range(n)]]
+        v = ['series', idx, cells, 'object']
+    outer = draw(st.sampled_from([None, None, None, 'list', 'tuple', 'dict', 'arr']))
+    if outer in ('list', 'tuple'):
+        return [outer, [v, draw(_huge_company)]]
+    if outer == 'dict':
+        return ['dict', [['a', v], ['b', draw(_huge_company)]]]
+    if outer == 'arr':
+        return ['arr', 'object', [2], [draw(_huge_company), v]]
+    return v
+
+
+_value_wide = _value_wide_small.flatmap(lambda v: _huge_value() if _gate(v, 25) in (3, 7) else st.just(v))       # two values in 25 give way to a value holding such an int
 
 # ----------------------------------------------------------------------------- spec-level analysis and mutation
 
-CONT = ('list', 'tuple', 'dict', 'Dict', 'dictattr', 'arr', 'series', 'df')
+CONT = ('list', 'tuple', 'dict', 'Dict', 'dictattr', 'arr', 'series', 'df') + SUBCLASSES
 
 
 def tag(v):
@@ -269,9 +377,9 @@ def has(v, pred):
     if pred(v):
         return True
     t = tag(v)
-    if t in ('list', 'tuple'):
+    if t in LISTS:
         return any(has(x, pred) for x in v[1])
-    if t in ('dict', 'Dict', 'dictattr'):
+    if t in DICTS:
         return any(has(x, pred) for _, x in v[1])
     if t == 'arr':
         return any(has(x, pred) for x in v[3])
@@ -304,6 +412,8 @@ def _scalar_twins(v):
     """specs of scalars that == v by value (used to make equal-but-differently-typed pairs frequent)"""
     if isinstance(v, bool):
         return [int(v), float(v), ['np', 'bool_', v], ['np', 'int64', int(v)]]
+    if _is_huge(v):
+        return []                   # no other raw type spells an int beyond the range of a float
     if isinstance(v, int):
         return [float(v), ['np', 'int64', v], ['np', 'float64', float(v)], ['np', 'float32', float(v)]] + ([bool(v)] if v in (0, 1) else [])
     if isinstance(v, float):
@@ -340,7 +450,7 @@ def _different_leaf(v):
     if isinstance(v, int):
         return v + 3
     if isinstance(v, float):
-        return v + 3.5
+        return v + 3.5 if v + 3.5 != v else v / 2        # (1e308 + 3.5 is 1e308)
     if isinstance(v, str):
         return v + 'x'
     t = tag(v)
@@ -372,7 +482,19 @@ def _float_collision(v):
 
 
 def _is_big(x):
-    return isinstance(x, int) and not isinstance(x, bool) and abs(x) >= 2 ** 53
+    return isinstance(x, int) and not isinstance(x, bool) and 2 ** 53 <= abs(x) < _FLOAT_OVERFLOW
+
+
+def _is_huge(x):
+    return isinstance(x, int) and not isinstance(x, bool) and abs(x) >= _FLOAT_OVERFLOW
+
+
+def _huge_near_misses(v):
+    """near misses of an int v beyond the range of a float - every one a different number (python compares int and float exactly: 10**400 != inf, 10**400 != 1e308), or the same int inside a container"""
+    s = 1 if v > 0 else -1
+    other = s * (2 ** 1024 if abs(v) != 2 ** 1024 else 10 ** 400)
+    return [('huge_int_neighbour', v + 1), ('huge_int_neighbour', v - 1), ('huge_int_vs_inf', ['inf', s]), ('huge_int_vs_float', s * 1e308), ('huge_int_vs_float', s * 1.7976931348623157e308),
+            ('huge_int_vs_numpy_float', ['np', 'float64', ['inf', s]]), ('huge_int_vs_numpy_float', ['np', 'float64', s * 1e308]), ('huge_int_vs_other_huge_int', other), ('huge_int_sign', -v)]
 
 
 def _is_negzero(x):
@@ -388,7 +510,9 @@ def _scalar_wide_mutations(v):
     if t == 'np' and _is_big(v[2]) and _float_collision(v[2]) is not None:
         out.append(('bigint_float_collision', ['np', v[1], _float_collision(v[2])]))
     typed = None
-    if t == 'scalar':
+    if _is_huge(v):
+        out.extend(_huge_near_misses(v))            # (typed stays None: no typed array holds such an int; the object array / object Series candidates below apply)
+    elif t == 'scalar':
         if isinstance(v, bool):
             typed = 'bool'
         elif isinstance(v, int):
@@ -462,7 +586,7 @@ def _mutations(v, wide=False):
         out.append(('leaf', _different_leaf(v)))
         out.append(('wrap_list', ['list', [v]]))
         out.append(('wrap_tuple', ['tuple', [v]]))
-        if t == 'scalar' and isinstance(v, (int, float)) and not isinstance(v, bool):
+        if t == 'scalar' and isinstance(v, (int, float)) and not isinstance(v, bool) and not _is_huge(v):
             out.append(('wrap_arr', ['arr', 'float64' if isinstance(v, float) else 'int64', [1], [v]]))
             out.append(('wrap_arr0d', ['arr', 'float64' if isinstance(v, float) else 'int64', [], [v]]))
         if v is None:
@@ -473,21 +597,30 @@ def _mutations(v, wide=False):
             if t == 'scalar' and isinstance(v, float) and v == v and abs(v) < 1e300:
                 out.append(('leaf_within_isclose_tolerance', v + max(abs(v), 1.0) * 1e-9))      # a different number, far inside any rtol=1e-5 / atol=1e-8
         return out
-    if t in ('list', 'tuple'):
-        out.append(('ctype', ['tuple' if t == 'list' else 'list', v[1]]))
+    if t in LISTS:
+        base = BASE.get(t, t)
+        if t != base:
+            out.append(('ctype_subclass', [base, v[1]]))               # an instance of a user subclass of list / tuple against the list / tuple of the same members
+        out.append(('ctype', ['tuple' if base == 'list' else 'list', v[1]]))
         out.append(('len', [t, v[1] + [0]]))
         if v[1]:
             out.append(('len', [t, v[1][:-1]]))
             if all(isinstance(x, int) and not isinstance(x, bool) for x in v[1]):
-                out.append(('ctype_arr', ['arr', 'int64', [len(v[1])], v[1]]))
+                out.append(('ctype_arr', ['arr', 'object' if any(_is_huge(x) for x in v[1]) else 'int64', [len(v[1])], v[1]]))
             if all(isinstance(x, float) for x in v[1]):
                 out.append(('ctype_arr', ['arr', 'float64', [len(v[1])], v[1]]))
+        if wide and t == base:
+            out.append(('ctype_subclass', ['u' + t, v[1]]))
         sub(v[1], lambda i, m: [t, v[1][:i] + [m] + v[1][i + 1:]])
         return out
-    if t in ('dict', 'Dict', 'dictattr'):
+    if t in DICTS:
         for other in ('dict', 'Dict', 'dictattr'):
             if other != t:
-                out.append(('ctype', [other, v[1]]))
+                out.append(('ctype_subclass' if t in SUBCLASSES and other == 'dict' else 'ctype', [other, v[1]]))
+        if wide:            # a plain dict against a collections.OrderedDict / an instance of a user subclass of dict with the same items; the subclasses against one another
+            for other in ('odict', 'udict'):
+                if other != t:
+                    out.append(('ctype_subclass' if t == 'dict' else 'ctype', [other, v[1]]))
         out.append(('key_added', [t, v[1] + [['zz', 0]]]))
         if v[1]:
             out.append(('key_removed', [t, v[1][:-1]]))
@@ -537,6 +670,8 @@ def _mutations(v, wide=False):
                         out.append(('cell_to_nat', ['series', idx, vals[:i] + [['nat']] + vals[i + 1:], dtype]))
                 else:
                     out.append(('cell', ['series', idx, vals[:i] + ['zz'] + vals[i + 1:], dtype]))
+                    if wide and _is_huge(c):
+                        out.extend((k, ['series', idx, vals[:i] + [m] + vals[i + 1:], dtype]) for k, m in _huge_near_misses(c))
             if wide:
                 out.extend((k, ['series', i2, vals, dtype]) for k, i2 in _zone_index_mutations(idx))
             if idx[0] == 'obj':
@@ -638,10 +773,10 @@ def _grow_index(idx):
 def _twin(v, pick):
     """value-equal twin of v: one scalar leaf replaced by an equal scalar of another type (or v itself when there is none)"""
     t = tag(v)
-    if t in ('list', 'tuple') and v[1]:
+    if t in LISTS and v[1]:
         i = pick % len(v[1])
         return [t, v[1][:i] + [_twin(v[1][i], pick // 7)] + v[1][i + 1:]]
-    if t in ('dict', 'Dict', 'dictattr') and v[1]:
+    if t in DICTS and v[1]:
         i = pick % len(v[1])
         return [t, v[1][:i] + [[v[1][i][0], _twin(v[1][i][1], pick // 7)]] + v[1][i + 1:]]
     if t == 'arr' and v[1] == 'object' and v[3]:
@@ -661,7 +796,7 @@ def _eq(what, x, y):
 
 
 def _members(v):
-    return [x[1] for x in v[1]] if tag(v) == 'dict' else v[1]
+    return [x[1] for x in v[1]] if tag(v) in DICTS else v[1]
 
 
 def _classes(*specs):
@@ -705,7 +840,55 @@ def _classes(*specs):
             cls.add('numbers_only_bigint_next_to_float')
         if tag(v) in CONT and has(v, lambda x: x is not v and tag(x) in CONT):
             cls.add('nested')
+        if has(v, _is_huge):                                            # class 38
+            cls.add('int_beyond_float_range')
+            if _is_huge(v):
+                cls.add('huge_int_scalar')
+            if has(v, lambda x: tag(x) in LISTS + DICTS and any(_is_huge(c) for c in _members(x))):
+                cls.add('huge_int_member_of_list_tuple_dict')
+            if has(v, lambda x: (tag(x) == 'arr' and any(_is_huge(c) for c in x[3])) or (tag(x) == 'series' and any(_is_huge(c) for c in x[2]))):
+                cls.add('huge_int_cell_of_object_array_or_series')
+            if has(v, lambda x: tag(x) in CONT and tag(x) != 'df' and any(_is_huge(c) for c in _cells(x)) and any(_floatlike(c) for c in _cells(x))):
+                cls.add('huge_int_next_to_float_nan_inf')
+        if has(v, lambda x: tag(x) in SUBCLASSES):                      # class 35
+            cls.add('container_subclass')
+            cls.add('dict_subclass' if has(v, lambda x: tag(x) in ('odict', 'udict')) else 'list_or_tuple_subclass')
+            if has(v, lambda x: tag(x) in ('ulist', 'utuple')):
+                cls.add('list_or_tuple_subclass')
+            if has(v, lambda x: x is not v and tag(x) in SUBCLASSES):
+                cls.add('container_subclass_below_root')
     return sorted(cls)
+
+
+def _cells(v):
+    t = tag(v)
+    return _members(v) if t in LISTS + DICTS else v[3] if t == 'arr' else v[2] if t == 'series' else []
+
+
+def _floatlike(c):
+    return isinstance(c, float) or tag(c) in ('nan', 'inf') or _npfloat(c)
+
+
+def _npfloat(c):
+    return tag(c) == 'np' and c[1] in ('float64', 'float32')
+
+
+def _huge_meets_numpy_float(a, b):
+    """does an int beyond the range of a float of one spec sit at the place of a numpy float scalar of the other (the comparison numpy itself refuses with OverflowError)?
+    Places correspond as eq walks them: members of two lists / tuples of one type and length, values of two dicts of one type under the same keys, cells of two object arrays of one shape"""
+    if (_is_huge(a) and _npfloat(b)) or (_is_huge(b) and _npfloat(a)):
+        return True
+    ta, tb = tag(a), tag(b)
+    if ta != tb:
+        return False
+    if ta in LISTS and len(a[1]) == len(b[1]):
+        return any(_huge_meets_numpy_float(p, q) for p, q in zip(a[1], b[1]))
+    if ta in DICTS and sorted(k for k, _ in a[1]) == sorted(k for k, _ in b[1]):
+        other = dict((k, c) for k, c in b[1])
+        return any(_huge_meets_numpy_float(c, other[k]) for k, c in a[1])
+    if ta == 'arr' and a[1] == 'object' and b[1] == 'object' and a[2] == b[2]:
+        return any(_huge_meets_numpy_float(p, q) for p, q in zip(a[3], b[3]))
+    return False
 
 
 def _numeric_labels(labels):
@@ -723,6 +906,12 @@ def _kind_classes(kind):
         cls.append('near_within_isclose_tolerance')        # a float leaf / cell moved by a relative 1e-9: a different number that np.isclose / rounding takes for the same
     if 'zone' in kind:
         cls.append('near_zone_changed_same_wall_clock')    # the same wall clock with no zone / a zone added / another zone: other instants
+    if kind.startswith('huge_int'):
+        cls.append('near_huge_int')                        # an int beyond the range of a float against its neighbour / inf / 1e308 / a numpy float / another such int / its negative
+        if kind == 'huge_int_vs_numpy_float':
+            cls.append('huge_int_meets_numpy_float')       # the comparison numpy itself refuses with OverflowError
+    if kind == 'ctype_subclass':
+        cls.append('near_subclass_vs_base_same_members')   # dict vs OrderedDict / user subclass of dict, list / tuple vs an instance of a user subclass, same items
     if kind in LABEL_KINDS:
         cls.append('near_object_label_changed')            # one object-dtype label replaced: None <-> NaN, an int beyond 2**53 -> its float64 twin, a different leaf
         cls.append('near_object_label_' + kind.split('_label_')[1])
@@ -734,6 +923,10 @@ def _pick_from(ms, prefer, pick=0):
     A value with object-dtype labels (these exist only in the wide universe) takes a label near miss in two cases out of three unless another kind is preferred"""
     if prefer is None and (pick // 1000) % 3 != 0:
         sel = [c for c in ms if c[0] in LABEL_KINDS]
+        if sel:
+            return sel
+    if (pick // 3) % 2 == 0:            # a value holding an int beyond the range of a float (one case in 20 of the wide universe) takes a near miss on that int in half the cases
+        sel = [c for c in ms if c[0].startswith('huge_int')]
         if sel:
             return sel
     if prefer:
@@ -780,16 +973,20 @@ def run_pairs(spec):
     if spec.get('how') == 'redtype' and repr(vx) != repr(vy):
         cls.append('array_same_shape_other_dtype')
     cls.extend(_kind_classes(kind))
+    if _huge_meets_numpy_float(vx, vy) and 'huge_int_meets_numpy_float' not in cls:
+        cls.append('huge_int_meets_numpy_float')
+    if kind is None and tag(vx) != tag(vy) and BASE.get(tag(vx), tag(vx)) == BASE.get(tag(vy), tag(vy)) and (tag(vx) in SUBCLASSES or tag(vy) in SUBCLASSES):
+        cls.append('subclass_vs_base_or_sibling_free_pair')
     return dict(nt=nt, cls=cls)
 
 
 def _reorder(v):
     """the same value with every dict written in reverse insertion order"""
     t = tag(v)
-    if t in ('list', 'tuple'):
+    if t in LISTS:
         return [t, [_reorder(x) for x in v[1]]]
-    if t in ('dict', 'Dict', 'dictattr'):
-        return [t, [[k, _reorder(x)] for k, x in v[1]][::-1]]
+    if t in DICTS:      # (an OrderedDict keeps its order: its own == is order-sensitive, so nothing is claimed about two OrderedDicts written in different orders)
+        return [t, [[k, _reorder(x)] for k, x in v[1]][::1 if t == 'odict' else -1]]
     if t == 'arr' and v[1] == 'object':
         return ['arr', 'object', v[2], [_reorder(x) for x in v[3]]]
     return v
@@ -953,7 +1150,8 @@ _pair = st.one_of(
     # y derived from x: a value-equal twin of another raw type, or (1 in 4) the first array of x re-written in another dtype
     st.tuples(_value_wide, st.integers(0, 10 ** 6), st.integers(0, 3), _arr_values).map(
         lambda t: dict(x=t[0], y=_twin(t[0], t[1]), mut=None, how='twin') if t[2] else dict(x=t[3], y=_redtype(t[3], t[1]), mut=None, how='redtype')),
-    st.tuples(_scalar_wide, _scalar_wide).map(lambda t: dict(x=t[0], y=t[1], mut=None)),
+    # two scalars; in one pair out of ten one of them is an int beyond the range of a float (against numpy float scalars, NaN, inf, stamps, strings ...)
+    st.tuples(_scalar_wide, _scalar_wide).map(lambda t: dict(x=HUGE[_gate(t, 80) // 20] if _gate(t, 80) % 20 == 7 else t[0], y=HUGE[_gate(t, 80) // 20] if _gate(t, 80) % 20 == 13 else t[1], mut=None)),
 )
 _copy_near = st.tuples(_value_wide, st.integers(0, 10 ** 6), st.integers(0, 1), _prefer).map(lambda t: dict(x=t[0], mut=t[1], w=max(t[2], int(t[3] is not None)), prefer=t[3]))
 _derive = st.tuples(st.sampled_from(['copy', 'twin', 'twin', 'twin2', 'near', 'other']), st.integers(0, 10 ** 6)).map(list)
@@ -990,7 +1188,7 @@ def _assignable(va, vb):
     ta, tb = tag(va), tag(vb)
     if ta != tb:
         return False
-    if ta in ('list', 'dict', 'Dict', 'dictattr'):
+    if ta in ('list', 'ulist') + DICTS:
         return True
     if ta == 'arr':
         return va[1] == vb[1] and va[2] == vb[2] and len(va[3]) >= 1
@@ -1070,10 +1268,10 @@ def _share(vs, vref, xref, env, stats, top=False):
             stats['nan'] += 1
         return xref
     ts, tr = tag(vs), tag(vref)
-    if ts in ('list', 'tuple') and tr in ('list', 'tuple'):
+    if ts in LISTS and tr in LISTS:
         kids = [_share(c, vref[1][i], xref[i], env, stats) if i < len(vref[1]) else build(c, env) for i, c in enumerate(vs[1])]
-        return kids if ts == 'list' else tuple(kids)
-    if ts in ('dict', 'Dict', 'dictattr') and tr in ('dict', 'Dict', 'dictattr'):
+        return _mklist(ts, kids)
+    if ts in DICTS and tr in DICTS:
         ref = dict((k, c) for k, c in vref[1])
         return _mkdict(ts, {k: (_share(c, ref[k], dict.__getitem__(xref, k), env, stats) if k in ref else build(c, env)) for k, c in vs[1]})
     if ts == 'arr' and tr == 'arr':
@@ -1321,6 +1519,8 @@ POOL = [
     # a scalar next to longer containers filled with it (numpy / pandas broadcast scalar == container), -0.0, NaT inside a datetime array
     -0.0, ['arr', '<U2', [1], ['a']], ['arr', '<U2', [2], ['a', 'a']], ['arr', 'object', [2], [None, None]], ['arr', 'float64', [2], [1.0, 1.0]],
     ['series', ['range', 2], [1.0, 1.0], 'float64'], ['arr', 'datetime64[s]', [2], [['dt', D0, 0], ['nat']]],
+    # an int beyond the range of a float (numpy refuses to compare it with its float scalars), bare and as the cell of an object array; instances of subclasses of dict / list / tuple
+    10 ** 400, ['arr', 'object', [1], [10 ** 400]], ['odict', [['a', 1]]], ['udict', [['a', 1]]], ['ulist', [1]], ['utuple', [1]],
 ]
 
 
@@ -1356,7 +1556,8 @@ SUBS = [
     Sub('pairs', lambda tier: _pair, run_pairs, quick=4000, thorough=20000,
         rule='pairs (x, y) over scalars, numpy scalars, timestamps, lists/tuples/dict/Dict/dictattr, arrays (int/float/str/object/datetime64; shapes incl. 0-d, empty, 2-d), '
              'Series/DataFrames (float / int / object / datetime cells; range, date, zone-aware date, float labels), nested to depth 3, ints beyond 2**53, -0.0, NaT cells, zone-aware datetime / Timestamp; y independent, a one-step mutation of x (incl. scalar vs a longer container filled with it), or a value-equal twin of another raw type. Oracle: never raises, boolean, reflexive, symmetric, '
-             '== agreement on plain NaN-free values, in_ agrees with eq, False across container types / scalar-vs-container. non-trivial = a container or NaN involved',
+             '== agreement on plain NaN-free values, in_ agrees with eq, False across container types / scalar-vs-container. Also OrderedDict / user subclasses of dict, list, tuple (False against the base type with the same members) '
+             'and ints beyond the range of a float (10**400 ...) against everything incl. numpy float scalars (numpy refuses that comparison; eq must not raise). non-trivial = a container or NaN involved',
         floor=0.3, class_floors={'pandas': 0.05, 'array': 0.1, 'nan': 0.1, 'equal': 0.03,
                                  'one_value_in_two_raw_types': 0.03, 'one_value_in_two_raw_types_inside_container': 0.009, 'array_same_shape_other_dtype': 0.035,       # class 13
                                  'int_beyond_2**53': 0.05, 'numbers_only_bigint_next_to_float': 0.006, 'negative_zero': 0.03, 'nat_in_datetime_array': 0.007,     # class 15
@@ -1365,7 +1566,8 @@ SUBS = [
         rule='x with a structural copy (fresh NaN objects) must be equal; x with one definite change (leaf, container type, length, key, reshape, wrap, index, columns, cell) '
              'must be unequal, both directions; also an int beyond 2**53 against the neighbour float64 cannot tell from it, a scalar against arrays / Series / frames filled with it, '
              'a string against its characters, falsy scalars against empty containers, a float moved by a relative 1e-9 (inside any isclose tolerance), a stamp / date index with the same wall clock and the zone '
-             'dropped / added / changed. non-trivial = x is a container or holds NaN',
+             'dropped / added / changed, a dict / list / tuple against the subclass instance with the same members, an int beyond the range of a float against its neighbour / inf / 1e308 / numpy.float64(inf) / another such int. '
+             'non-trivial = x is a container or holds NaN',
         floor=0.3, class_floors={'near=ctype': 0.03, 'near=reshape': 0.01, 'near=leaf': 0.05, 'duplicate_column_labels': 0.01, 'duplicate_index_labels': 0.005,
                                  'int_beyond_2**53': 0.045, 'near=bigint_float_collision': 0.01, 'negative_zero': 0.025, 'nat_in_datetime_array': 0.007,          # class 15
                                  'scalar_vs_sequence': 0.04, 'near=broadcast_series': 0.008, 'near=broadcast_arr': 0.005}),                                      # class 18
@@ -1414,3 +1616,15 @@ SUBS[5].class_floors.update({'object_labels': 0.3, 'object_index_labels': 0.2, '
                              'near_object_label_none_vs_nan': 0.045, 'near_object_label_bigint_collision': 0.016, 'near_object_label_leaf': 0.09,
                              'near=index_label_none_vs_nan': 0.028, 'near=column_label_none_vs_nan': 0.014,
                              'law=pairs': 0.06, 'law=copy_near': 0.08, 'law=session': 0.13, 'state_between_calls': 0.065, 'operands_share_index_object': 0.009})
+# class 38: ints beyond the range of a float (scalars, members of lists / tuples / dicts, cells of object arrays and object Series; next to floats, NaN, inf; at the place of a numpy float scalar of the other operand -
+# the comparison numpy refuses; near misses: the neighbour int, inf, 1e308, a numpy float, another such int, the negative). class 35: collections.OrderedDict / instances of user subclasses of dict, list, tuple
+# (at the root and below it; against the base type with the same members as a near miss and as a free pair)
+SUBS[0].class_floors.update({'int_beyond_float_range': 0.015, 'huge_int_scalar': 0.009, 'huge_int_member_of_list_tuple_dict': 0.004, 'huge_int_cell_of_object_array_or_series': 0.0015,
+                             'huge_int_next_to_float_nan_inf': 0.003, 'huge_int_meets_numpy_float': 0.0006,
+                             'container_subclass': 0.019, 'dict_subclass': 0.01, 'list_or_tuple_subclass': 0.009, 'container_subclass_below_root': 0.002,
+                             'near_subclass_vs_base_same_members': 0.004, 'subclass_vs_base_or_sibling_free_pair': 0.0009})
+SUBS[1].class_floors.update({'int_beyond_float_range': 0.01, 'huge_int_scalar': 0.0033, 'huge_int_member_of_list_tuple_dict': 0.004, 'huge_int_cell_of_object_array_or_series': 0.002,
+                             'huge_int_next_to_float_nan_inf': 0.003, 'huge_int_meets_numpy_float': 0.0005, 'near_huge_int': 0.0047,
+                             'container_subclass': 0.019, 'dict_subclass': 0.009, 'list_or_tuple_subclass': 0.009, 'container_subclass_below_root': 0.004, 'near_subclass_vs_base_same_members': 0.009})
+SUBS[4].class_floors.update({'int_beyond_float_range': 0.003, 'huge_int_cell_of_object_array_or_series': 0.0006, 'huge_int_meets_numpy_float': 0.0002, 'near_huge_int': 0.0025,      # (seed 4: a third of seeds 1-3)
+                             'container_subclass': 0.029, 'dict_subclass': 0.0125, 'list_or_tuple_subclass': 0.0155, 'container_subclass_below_root': 0.0033, 'near_subclass_vs_base_same_members': 0.011})
